@@ -450,7 +450,78 @@ pub fn judge_fetch(x: &Expect<'_>, f: Fetch, store: &[u8]) -> Result<&'static st
     }
 }
 
+/// One fetch on a fresh rig with ONE interrupted SPI exchange (exchange number `after` of the fetch, cut after
+/// `octets` octets reached the chip): the statement's alternative still holds — an error, or exactly the reported
+/// bytes. Ok((outcome, exchanges the fetch made)).
+pub fn run_cut_case(c: &Case, after: u32, octets: usize) -> Result<(&'static str, u32), Failure> {
+    let case = || {
+        let mut v = c.json();
+        v["spi_cut"] = json!([after, octets]);
+        v
+    };
+    let mut rig = match catch(|| make_rig(c.chip)) {
+        Ok(Ok(r)) => r,
+        Ok(Err(e)) => return Err(Failure::new("rx-fetch", case(), format!("driver initialisation failed: {e}")).with_fp("rx-fetch/init")),
+        Err(p) => return Err(panic_failure(case(), &p)),
+    };
+    let mut store = [CANARY; 256];
+    let size = c.buf.min(256);
+    let r = catch(|| with_xfer_budget(XFER_BUDGET_PER_FETCH, || crate::drive::with_spi_cut(after, octets, || rig.fetch(c, &mut store[..size]))));
+    match r {
+        Err(p) if p.contains(XFER_HANG_MSG) => Err(does_not_return(c)),
+        Err(p) => Err(panic_failure(case(), &p)),
+        Ok((f, seen)) => judge_fetch(&Expect { case: &case, chip: CHIPS[c.chip], want: c.expected_len(), off: c.off, size, implicit: c.implicit, fp_suffix: "/bus-fault-during-fetch" }, f, &store).map(|o| (o, seen)),
+    }
+}
+
+/// every exchange of a fetch interrupted once, after 0, 1, 2, 3, half and all-but-one of its octets
+fn bus_fault_stage(ctx: &mut Ctx) {
+    ctx.parallel(|ti, n, st| {
+        let mut k = 0usize;
+        for chip in 0..CHIPS.len() {
+            let done: u16 = if chip == 0 { IRQ_RX_DONE | IRQ_HEADER_VALID | IRQ_PREAMBLE_DETECTED } else { (IRQ127_RX_DONE | IRQ_VALID_HEADER) as u16 };
+            for path in [0usize, 1, 3] {
+                for (len, off) in [(13u8, 0u8), (64, 200), (255, 1), (5, 250), (40, 16)] {
+                    for implicit in [false, true] {
+                        if implicit && path == 3 {
+                            continue;
+                        }
+                        k += 1;
+                        if k % n != ti {
+                            continue;
+                        }
+                        let c = Case { chip, path, implicit, cfg_len: if implicit { len } else { 255 }, len, off, buf: 256, status: STATUS_OK, irq: done, continuous: false, crc: true, iq: true, pre: 8 };
+                        // fault-free length of the fetch in exchanges
+                        let total = match run_cut_case(&c, u32::MAX, 0) {
+                            Ok((_, seen)) => seen,
+                            Err(f) => {
+                                st.fail(f);
+                                continue;
+                            }
+                        };
+                        for after in 0..total {
+                            for octets in [0usize, 1, 2, 3, len as usize / 2, len as usize, usize::MAX] {
+                                st.eval();
+                                st.nt_distinct();
+                                match run_cut_case(&c, after, octets) {
+                                    Ok((o, _)) => st.class(&format!("bus-fault-during-fetch:{}:{o}", CHIPS[chip])),
+                                    Err(f) => st.fail(f),
+                                }
+                            }
+                        }
+                    }
+                }
+            }
+        }
+    });
+}
+
 pub fn replay(case: &Value, _kf: &KnownFindings) -> Result<(), Failure> {
+    if let (Some(cut), Some(c)) = (case["spi_cut"].as_array(), Case::from_json(case)) {
+        let after = cut.first().and_then(|v| v.as_u64()).unwrap_or(0) as u32;
+        let octets = cut.get(1).and_then(|v| v.as_u64()).unwrap_or(0).min(usize::MAX as u64) as usize;
+        return run_cut_case(&c, after, octets).map(|_| ());
+    }
     if case["kind"] == "rxfetch-mac" {
         return super::c18_mac::replay(case);
     }
@@ -563,7 +634,7 @@ pub fn run(ctx: &mut Ctx) {
     // the quick tier takes 3 of the status bytes and 2 of the interrupt-flag sets: only thorough covers the stated space
     ctx.exhaustive = full;
     ctx.rule = format!(
-        "(VERIF_SEED only selects the random histories of the stateful stage; everything else is enumerated) STATELESS: exhaustive enumeration on chip doubles (SX1262, SX1276, SX1272) whose 256-byte buffer/FIFO holds a position-dependent pattern and wraps: packet parameters beyond header mode and length vary with the offset index on the RadioKind and LoRa paths (CRC on/off, IQ inverted or not, preamble 8 / 0 / 65535 / 12; the adapter fixes them); explicit header: every reported length 0..=255 (configured maximum 255, length-1 and length/2) x every offset 0..=255 x caller buffer sizes {{0,1,12,64,255,256}} x {{status bytes (SX126x), kind path}} / {{interrupt-flag sets x Single/Continuous, LoRa::rx and get_rx_result}} / {{LorawanRadio::rx_single, rx_continuous}}; implicit header (kind and LoRa paths): every configured length 0..=255 x every offset x the 6 buffer sizes x decoy reported lengths {{0, 255, configured+1}}. {} EXTRA GRIDS (both tiers): every caller buffer size 0..=256 and 257 / 300 / 512 / 1024 x every length x offsets {{0, 255, wrap by one}} x header mode through get_rx_payload and LoRa::rx; every length x every offset x buffers {{256, 12, exactly the length}} x header mode through ONE start_rx followed by TWO completed receptions in continuous mode (the second, at its own start pointer, is judged) and through TWO get_rx_result calls for one reception (the second is judged). HAND-OVER to the MAC: authentic downlinks (reference codec) of 13..=255 bytes reported by the chip double at several offsets (incl. wrap-around) in RX1 of a real async_device::Device on top of LorawanRadio with radio buffers of 64, 255 and 256 bytes; a frame that fits must be delivered with exactly the plaintext that was sent, a longer one must give an error or no downlink. One evaluation = one fetch into a canary-filled buffer (or one such uplink+downlink transaction). Non-trivial (distinct by construction): effective length > buffer, or offset+length > 256 (wrap), or length 0, or an error status / CRC-error / no-RxDone interrupt set.{}",
+        "(VERIF_SEED only selects the random histories of the stateful stage; everything else is enumerated) STATELESS: exhaustive enumeration on chip doubles (SX1262, SX1276, SX1272) whose 256-byte buffer/FIFO holds a position-dependent pattern and wraps: packet parameters beyond header mode and length vary with the offset index on the RadioKind and LoRa paths (CRC on/off, IQ inverted or not, preamble 8 / 0 / 65535 / 12; the adapter fixes them); explicit header: every reported length 0..=255 (configured maximum 255, length-1 and length/2) x every offset 0..=255 x caller buffer sizes {{0,1,12,64,255,256}} x {{status bytes (SX126x), kind path}} / {{interrupt-flag sets x Single/Continuous, LoRa::rx and get_rx_result}} / {{LorawanRadio::rx_single, rx_continuous}}; implicit header (kind and LoRa paths): every configured length 0..=255 x every offset x the 6 buffer sizes x decoy reported lengths {{0, 255, configured+1}}. {} EXTRA GRIDS (both tiers): every caller buffer size 0..=256 and 257 / 300 / 512 / 1024 x every length x offsets {{0, 255, wrap by one}} x header mode through get_rx_payload and LoRa::rx; every length x every offset x buffers {{256, 12, exactly the length}} x header mode through ONE start_rx followed by TWO completed receptions in continuous mode (the second, at its own start pointer, is judged) and through TWO get_rx_result calls for one reception (the second is judged). BUS FAULT DURING THE FETCH (both tiers): for 5 (length, offset) pairs x header mode x get_rx_payload / LoRa::rx / LorawanRadio::rx_single on the three chips, every SPI exchange of the fetch is interrupted once after 0, 1, 2, 3, half, all payload octets and all of its octets have reached the chip double (a FIFO read pointer has advanced by then) and the transaction fails: the outcome must still be an error or exactly the reported bytes. HAND-OVER to the MAC: authentic downlinks (reference codec) of 13..=255 bytes reported by the chip double at several offsets (incl. wrap-around) in RX1 of a real async_device::Device on top of LorawanRadio with radio buffers of 64, 255 and 256 bytes; a frame that fits must be delivered with exactly the plaintext that was sent, a longer one must give an error or no downlink. One evaluation = one fetch into a canary-filled buffer (or one such uplink+downlink transaction). Non-trivial (distinct by construction): effective length > buffer, or offset+length > 256 (wrap), or length 0, or an error status / CRC-error / no-RxDone interrupt set.{}",
         if full { "thorough: 12 status bytes (all 8 command-status values), 5 interrupt-flag sets." } else { "quick: 3 status bytes (good, execution failure, timeout), 2 interrupt-flag sets." },
         super::c18_hist::RULE
     );
@@ -666,6 +737,7 @@ pub fn run(ctx: &mut Ctx) {
     });
     // dimensions the grid above holds narrow: EVERY caller buffer size, a second reception of one start_rx, a second fetch
     extra_stage(ctx);
+    bus_fault_stage(ctx);
     // the last hop: LorawanRadio -> the device's radio buffer -> MAC
     super::c18_mac::run(ctx);
     // receptions as the last step of a history on one driver instance
